@@ -44,7 +44,12 @@ def s_case(gran):
         "decisions": st.lists(dec, max_size=4),
         "events": st.builds(lambda warm, evs: warm + evs,
                             st.sampled_from([[], [("advance", 0.06)], [("advance", 0.06), ("advance", 0.06)],
-                                             [("advance", 0.06), ("advance", 0.06), ("advance", 0.06)]]),
+                                             [("advance", 0.06), ("advance", 0.06), ("advance", 0.06)],
+                                             # a page, then a page fetch that fails, then the fetch is tried again
+                                             [("answer", 0, "rows_more"), ("next_page",), ("answer", 0, "invalid"),
+                                              ("next_page",), ("answer", 0, "rows")],
+                                             [("answer", 0, "rows_more"), ("next_page",), ("answer", 0, "unauthorized"),
+                                              ("next_page",)]]),
                             st.lists(ev, min_size=1, max_size=12)),
         "tape": st.lists(st.integers(0, 3), max_size=30 if gran == "locks" else 8),
         "gran": st.just(gran),
@@ -128,7 +133,9 @@ def _run(case, ctx, sim):
             delivered += 1
         elif ev[0] == "next_page":
             # a page fetch is an execution of its own: exactly one more outcome per registered pair
-            if fut._event.is_set() and fut._final_exception is None and fut.has_more_pages:
+            # (also after a page fetch that FAILED: the paging state of the last delivered page is still
+            # there and the application may try that page again)
+            if fut._event.is_set() and fut.has_more_pages:
                 for p in pairs:
                     if p.total != 1:
                         ctx.fail(["C14.delivered", "never-called"],
